@@ -9,9 +9,20 @@ ViewsTile, ScaleRoundTrip, DualPairing, NormLaw, NamedWriteFrame, OtherUntouched
 random histories of depth 5, which carry after every action the exact flat data, every named view,
 dot(other) and norm^2.
 
+Complex-step mode is part of the specification: a vector allocated complex stores two planes (real, imaginary);
+Vector.set_complex_step_mode (action CsSwitch) only changes which array the vector is (complex in the mode, the real
+plane out of it); ARITHMETIC acts on the visible array (complex arithmetic on both planes in the mode, the hidden imaginary
+plane untouched out of it), SET (set_val, set_vec, x[name] = .., set_var) assigns the storage, so real data clear the
+imaginary part of the addressed entries in and out of the mode; complex operands are used in the mode.  Additional laws
+HiddenPlane, ModeSwitchFrame; a third family of histories (NextCS) is the alphabet of a complex step.  Histories of
+complex-allocated vectors start with the imaginary plane an earlier complex step has left behind.
+
 Binding: every history is replayed on the root vectors of a real Problem with the same layout and ref / ref0 / res_ref
 (_outputs with _residuals, _doutputs with _dresiduals as the second vector and vice versa) and everything is compared
-after every action: exactly where the expectation is an integer vector, to 1e-12 otherwise."""
+after every action: exactly where the expectation is an integer vector, to 1e-12 otherwise.  Both planes of the storage are compared after
+every action: in the mode asarray() is the complex array; out of the mode asarray() must be real and the hidden plane is
+read by switching the mode on and off again (the specification says the switch changes no data).  Problems with complex
+vectors carry a Newton solver on the root so that the linear vectors are allocated complex as well."""
 import json
 import os
 
@@ -23,7 +34,10 @@ from ..util import pmap, quiet, split
 NONE = 99999
 RTOL = 1e-12
 ACTIONS = ['SetValScalar', 'SetValArr', 'SetValIdx', 'SetVec', 'IAdd', 'ISub', 'IAddConst', 'IMul', 'OpIdx', 'IMulVec', 'AddScalVec',
-           'SetName', 'SetVarIdx', 'ScaleToNorm', 'ScaleToPhys']
+           'SetName', 'SetVarIdx', 'ScaleToNorm', 'ScaleToPhys', 'CsSwitch']
+# SET operations: assign the storage (both planes)
+SETS = ('set_val', 'set_val_arr', 'set_val_idx', 'set_vec', 'set_name', 'set_var')
+EPS = 2.3e-16
 # vector under test, second vector
 VECS = {'nl_out': ('_outputs', '_residuals'), 'nl_res': ('_residuals', '_outputs'),
         'ln_out': ('_doutputs', '_dresiduals'), 'ln_res': ('_dresiduals', '_doutputs')}
@@ -31,6 +45,16 @@ VECS = {'nl_out': ('_outputs', '_residuals'), 'nl_res': ('_residuals', '_outputs
 
 def fr(q):
     return q[0] / q[1]
+
+
+def cval(c, ci):
+    """a scalar operand: a float, or a complex number when the specification gives an imaginary part"""
+    return complex(fr(c), fr(ci)) if ci[0] != 0 else fr(c)
+
+
+def carr(re, im):
+    a = np.array([fr(q) for q in re])
+    return a + 1j * np.array([fr(q) for q in im]) if any(q[0] != 0 for q in im) else a
 
 
 def py_idx(t):
@@ -81,31 +105,54 @@ def build(L, alloc_complex):
     p = om.Problem()
     p.model.add_subsystem('c1', Comp(decl[:2]))
     p.model.add_subsystem('c2', Comp(decl[2:]))
+    if alloc_complex:
+        # a gradient-based solver under force_alloc_complex makes OpenMDAO allocate the LINEAR vectors complex as well
+        # (check_allocate_complex_ln); the model is never run
+        p.model.nonlinear_solver = om.NewtonSolver(solve_subsystems=False)
+        p.model.linear_solver = om.DirectSolver()
     p.setup(force_alloc_complex=alloc_complex)
     p.final_setup()
     return p
 
 
-def near(got, want_q, exact):
-    """exact while the whole history has stayed in the integers, 1e-12 relative after a division has happened"""
+def near(got, want_q, exact, slack=0.0):
+    """exact while the whole history has stayed in the integers, 1e-12 relative after a division has happened
+    (slack: absolute round-off allowance, a few ulp of the largest number the history has produced)"""
     want = np.array([fr(q) for q in want_q], dtype=float)
     got = np.asarray(got, dtype=float).ravel()
     if got.shape != want.shape:
         return False
     if exact:
         return bool(np.array_equal(got, want))
-    return bool(np.all(np.abs(got - want) <= RTOL * (1.0 + np.abs(want))))
+    return bool(np.all(np.abs(got - want) <= RTOL * (1.0 + np.abs(want)) + slack))
 
 
-def act(X, Y, names, L, a):
+def cnear(got, want_re, want_im, exact, slack=0.0):
+    """both planes of a complex array (a real array has a zero imaginary plane)"""
+    got = np.asarray(got)
+    return near(got.real, want_re, exact, slack) and near(got.imag if np.iscomplexobj(got) else np.zeros(got.shape), want_im, exact, slack)
+
+
+def planes(a):
+    a = np.ravel(np.asarray(a))
+    return {'re': [float(v) for v in a.real], 'im': [float(v) for v in a.imag]} if np.iscomplexobj(a) else [float(v) for v in a]
+
+
+def wplanes(re, im):
+    return {'re': [fr(q) for q in re], 'im': [fr(q) for q in im]} if any(q[0] != 0 for q in im) else [fr(q) for q in re]
+
+
+def act(X, Y, names, L, a, switch):
     n = a['n']
     other = lambda: X if a.get('src') == 'self' else Y      # noqa: E731
     if n == 'set_val':
-        X.set_val(fr(a['c']))
+        X.set_val(cval(a['c'], a['ci']))
     elif n == 'set_val_arr':
-        X.set_val(np.array([fr(q) for q in a['arr']]))
+        X.set_val(carr(a['arr'], a['arri']))
     elif n == 'set_val_idx':
-        X.set_val(fr(a['c']), idxs=py_idx(a['idx']))
+        X.set_val(cval(a['c'], a['ci']), idxs=py_idx(a['idx']))
+    elif n == 'cs_mode':
+        switch(bool(a['on']))
     elif n == 'set_vec':
         X.set_vec(other())
     elif n == 'iadd':
@@ -113,26 +160,26 @@ def act(X, Y, names, L, a):
     elif n == 'isub':
         X -= other()
     elif n == 'iadd_const':
-        X += fr(a['c'])
+        X += cval(a['c'], a['ci'])
     elif n == 'imul':
-        X *= fr(a['c'])
+        X *= cval(a['c'], a['ci'])
     elif n == 'op_idx':
-        getattr(X, a['op'])(fr(a['c']), idxs=py_idx(a['idx']))
+        getattr(X, a['op'])(cval(a['c'], a['ci']), idxs=py_idx(a['idx']))
     elif n == 'imul_vec':
         X *= other()
     elif n == 'add_scal_vec':
-        X.add_scal_vec(fr(a['c']), other())
+        X.add_scal_vec(cval(a['c'], a['ci']), other())
     elif n == 'set_name':
         name = names[a['var'] - 1]
         shape = tuple(L['vars'][a['var'] - 1]['shape'])
-        val = fr(a['vals'][0]) if a['whole'] == 'scalar' else np.array([fr(q) for q in a['vals']]).reshape(shape)
+        val = cval(a['vals'][0], a['valsi'][0]) if a['whole'] == 'scalar' else carr(a['vals'], a['valsi']).reshape(shape)
         if a['via'] == 'setitem':
             X[name] = val
         else:
             view = X[name]
             view[...] = val
     elif n == 'set_var':
-        X.set_var(names[a['var'] - 1], fr(a['c']), idxs=py_idx(a['idx']), flat=bool(a['flat']))
+        X.set_var(names[a['var'] - 1], cval(a['c'], a['ci']), idxs=py_idx(a['idx']), flat=bool(a['flat']))
     elif n == 'scale_to_norm':
         X.scale_to_norm(a['mode'])
     elif n == 'scale_to_phys':
@@ -148,51 +195,99 @@ def replay(arg):
     names = var_names(L)
     xn, yn = VECS[b['kind']]
     X, Y = getattr(p.model, xn), getattr(p.model, yn)
-    y0 = np.array([fr(q) for q in b['y0']])
-    Y.set_val(y0)
-    X.set_val(np.array([fr(q) for q in b['x0']]))
+    subs = [(comp, vis, getattr(comp, xn)) for comp, vis in ((p.model.c1, (0, 1)), (p.model.c2, (2,)))]
+
+    def switch(on):
+        # Vector.set_complex_step_mode on both root vectors and on the component-level vectors of the vector under test
+        # (every vector object has its own flag; a System switches all of its vectors together)
+        for v in [X, Y] + [sv for _c, _v, sv in subs]:
+            v.set_complex_step_mode(on)
+
+    y0 = carr(b['y0'], b['yi0'])
+    x0 = carr(b['x0'], b['xi0'])
+    if alloc:
+        # an earlier complex step: complex values are written in the mode, then the mode is left
+        switch(True)
+        Y.set_val(y0)
+        X.set_val(x0)
+        switch(False)
+    else:
+        Y.set_val(y0)
+        X.set_val(x0)
+    mode = bool(b['cs0'])
+    if mode:
+        switch(True)
+
+    def storage(V):
+        """(visible array, complete storage); out of the mode the storage is read by switching the mode on and off"""
+        vis = V.asarray()
+        if mode or not alloc:
+            return vis, np.array(vis)
+        V.set_complex_step_mode(True)
+        full = V.asarray(copy=True)
+        V.set_complex_step_mode(False)
+        return vis, full
+
     exact = True
+    big = max(abs(fr(q)) for k_ in ('x0', 'xi0', 'y0', 'yi0') for q in b[k_])
     for k, ev in enumerate(b['h']):
         a = ev['a']
         # integer arithmetic is exact in floating point; once a scaling has divided, round-off of 1 ulp per operation is allowed
-        exact = exact and not a['n'].startswith('scale_to') and all(q[1] == 1 for q in ev['data'])
+        exact = exact and not a['n'].startswith('scale_to') and all(q[1] == 1 for q in ev['data'] + ev['datai'])
+        big = max([big] + [abs(fr(q)) for q in ev['data'] + ev['datai']])
+        slack = 16 * EPS * big
 
         def bad(clause, want, got):
-            return {'step': k, 'action': a, 'clause': clause, 'want': want, 'got': got}
+            return {'step': k, 'action': a, 'clause': clause, 'want': want, 'got': got, 'cs': mode}
         try:
-            act(X, Y, names, L, a)
+            act(X, Y, names, L, a, switch)
         except MachineryError:
             raise
         except Exception as e:
             fr_ = traceback.extract_tb(e.__traceback__)[-1]
             return bad('%s raised %s (%s:%d)' % (a['n'], type(e).__name__, os.path.basename(fr_.filename), fr_.lineno),
                        'accepted', '%s: %s' % (type(e).__name__, str(e)[:300]))
-        data = X.asarray()
-        if not near(data, ev['data'], exact):
-            return bad('flat data after %s' % a['n'], [fr(q) for q in ev['data']], [float(v) for v in data])
-        if not np.array_equal(Y.asarray(), y0):
-            return bad('second vector changed by %s' % a['n'], y0.tolist(), [float(v) for v in Y.asarray()])
+        mode = bool(ev['cs'])
+        where = '%s%s' % (a['n'], ' in complex-step mode' if mode else '')
+        data, full = storage(X)
+        if bool(np.iscomplexobj(data)) != mode:
+            return bad('dtype of asarray() after %s' % where, 'complex' if mode else 'float', str(data.dtype))
+        if not cnear(data, ev['data'], ev['datai'] if mode else [[0, 1]] * len(ev['data']), exact, slack):
+            return bad('flat data after %s' % where, wplanes(ev['data'], ev['datai'] if mode else []), planes(data))
+        if not cnear(full, ev['data'], ev['datai'], exact, slack):
+            return bad('storage (real and imaginary plane, read in complex-step mode) after %s' % where,
+                       wplanes(ev['data'], ev['datai']), planes(full))
+        ydata, yfull = storage(Y)
+        if not np.array_equal(ydata, y0 if mode else y0.real) or not np.array_equal(yfull, y0):
+            return bad('second vector changed by %s' % where, planes(y0), planes(yfull))
         for vi, name in enumerate(names):
             got = X[name]
             shape = tuple(L['vars'][vi]['shape'])
-            if tuple(np.shape(got)) != shape or not near(got, ev['views'][vi], exact):
-                return bad('named view %s after %s' % (name, a['n']),
-                           {'shape': list(shape), 'values': [fr(q) for q in ev['views'][vi]]},
-                           {'shape': list(np.shape(got)), 'values': [float(v) for v in np.ravel(got)]})
+            wim = ev['viewsi'][vi] if mode else [[0, 1]] * len(ev['views'][vi])
+            if tuple(np.shape(got)) != shape or bool(np.iscomplexobj(got)) != mode or not cnear(got, ev['views'][vi], wim, exact, slack):
+                return bad('named view %s after %s' % (name, where),
+                           {'shape': list(shape), 'values': wplanes(ev['views'][vi], wim)},
+                           {'shape': list(np.shape(got)), 'values': planes(got)})
         # the vectors of the two components are windows on the same data
-        for comp, vis in ((p.model.c1, (0, 1)), (p.model.c2, (2,))):
-            sub = getattr(comp, xn).asarray()
+        for comp, vis, sv in subs:
+            sub = sv.asarray()
             want = [q for vi in vis for q in ev['views'][vi]]
-            if not near(sub, want, exact):
-                return bad('data of %s.%s after %s' % (comp.pathname, xn, a['n']), [fr(q) for q in want], [float(v) for v in sub])
-        if ev['dot'] != [0, 0]:
-            d = float(X.dot(Y))
-            if abs(d - fr(ev['dot'])) > RTOL * (1 + abs(fr(ev['dot']))):
-                return bad('dot(other) after %s' % a['n'], fr(ev['dot']), d)
-            n2, dd = float(X.get_norm()) ** 2, float(X.dot(X))
+            wim = [q for vi in vis for q in ev['viewsi'][vi]] if mode else [[0, 1]] * len(want)
+            if not cnear(sub, want, wim, exact, slack):
+                return bad('data of %s.%s after %s' % (comp.pathname, xn, where), wplanes(want, wim), planes(sub))
+        if ev['nrm2'] != [0, 0]:
+            # np.dot / np.linalg.norm of the visible arrays; round-off relative to the sum of the magnitudes of the terms
+            scale = 1.0 + float(np.abs(data) @ np.abs(ydata)) + float(np.abs(data) @ np.abs(data))
+            tol = RTOL * scale
+
+            def cq(z):
+                return complex(fr(z[0]), fr(z[1]))
+            d, dd, n2 = complex(X.dot(Y)), complex(X.dot(X)), float(X.get_norm()) ** 2
+            if abs(d - cq(ev['dot'])) > tol:
+                return bad('dot(other) after %s' % where, cq(ev['dot']), d)
             w = fr(ev['nrm2'])
-            if abs(n2 - w) > 4 * RTOL * (1 + abs(w)) or abs(dd - w) > RTOL * (1 + abs(w)):
-                return bad('get_norm()**2 / dot(self) after %s' % a['n'], w, [n2, dd])
+            if abs(n2 - w) > 4 * tol or abs(dd - cq(ev['dself'])) > tol:
+                return bad('get_norm()**2 / dot(self) after %s' % where, [w, cq(ev['dself'])], [n2, dd])
     return None
 
 
@@ -203,8 +298,8 @@ def _worker(chunk):
 
 def slim(b, upto=None):
     h = b['h'] if upto is None else b['h'][:upto + 1]
-    return {'kind': b['kind'], 'x0': [fr(q) for q in b['x0']], 'y0': [fr(q) for q in b['y0']],
-            'actions': [e['a'] for e in h]}
+    return {'kind': b['kind'], 'alloc_complex': bool(b['alloc']), 'complex_step_mode_at_start': bool(b['cs0']),
+            'x0': wplanes(b['x0'], b['xi0']), 'y0': wplanes(b['y0'], b['yi0']), 'actions': [e['a'] for e in h]}
 
 
 def run(ctx):
@@ -221,11 +316,12 @@ def run(ctx):
         mod = os.path.join(ctx.work, 'VectorReplay.tla')
         with open(mod, 'w') as fh:
             fh.write('---- MODULE VectorReplay ----\nEXTENDS VectorMC\nRLayouts == <<%s>>\nScript == %s\n'
-                     'ScriptInit == Init /\\ kind = %s\n'
+                     'ScriptInit == Init /\\ kind = %s /\\ alloc = %s /\\ cs = %s\n'
                      'ScriptNext == Len(hist) < Len(Script) /\\ Do(Script[Len(hist) + 1])\n====\n'
-                     % (to_tla(scn['layout']), to_tla(script), to_tla(b['kind'])))
+                     % (to_tla(scn['layout']), to_tla(script), to_tla(b['kind']), to_tla(bool(b['alloc'])), to_tla(bool(b['cs0']))))
         cfg = ctx.write_cfg('VectorReplay.cfg', 'CONSTANTS\n  Layouts <- RLayouts\n  Depth = %d\n  Record = TRUE\nINIT ScriptInit\n'
-                            'NEXT ScriptNext\nINVARIANT TypeOK\nINVARIANT ViewsTile\nINVARIANT ScaleRoundTrip\nINVARIANT Export\n' % len(script))
+                            'NEXT ScriptNext\nINVARIANT TypeOK\nINVARIANT ViewsTile\nINVARIANT ScaleRoundTrip\nINVARIANT Export\n'
+                            'PROPERTY HiddenPlane\nPROPERTY ModeSwitchFrame\n' % len(script))
         r = ctx.tlc_check(mod, cfg, timeout=600, workers=1, coverage=False)
         got = r.exports('EXP')
         if len(got) != 1:
@@ -240,24 +336,29 @@ def run(ctx):
         ctx.sample({'replayed': ctx.replay, 'agrees': f is None, 'actions': script})
         ctx.rule = 'replay of one stored scenario (observables recomputed by TLC along the stored history)'
         return
-    head = 'CONSTANTS\n  Layouts <- AllLayouts\n  Depth = %d\n  Record = %s\nINIT Init\nNEXT Next\n'
-    # 1. the design, exhaustively to a small depth (the observables are left out of the history: Record = FALSE)
-    cfg = ctx.write_cfg('VectorMC.cfg', head % (2, 'FALSE') + 'VIEW View\nINVARIANT TypeOK\nINVARIANT ViewsTile\n'
-                        'INVARIANT ScaleRoundTrip\nINVARIANT DualPairing\nINVARIANT NormLaw\nPROPERTY NamedWriteFrame\n'
-                        'PROPERTY OtherUntouched\n')
+    head = 'CONSTANTS\n  Layouts <- AllLayouts\n  Depth = %d\n  Record = %s\nINIT %s\nNEXT Next\n'
+    laws = ('INVARIANT TypeOK\nINVARIANT ViewsTile\nINVARIANT ScaleRoundTrip\nINVARIANT DualPairing\nINVARIANT NormLaw\n'
+            'PROPERTY NamedWriteFrame\nPROPERTY OtherUntouched\nPROPERTY HiddenPlane\nPROPERTY ModeSwitchFrame\n')
+    # 1. the design, exhaustively to a small depth (the observables are left out of the history: Record = FALSE).
+    #    quick: real vectors to depth 2, complex-allocated vectors (in and out of the mode) to depth 1 - their longer
+    #    histories are checked against the same laws along the simulated behaviours below; thorough: everything to depth 2
     # (run without -coverage, which costs about a third of the time; the vacuity guard is taken from the histories below)
-    r = ctx.tlc_check('mech/VectorMC', cfg, timeout=3000, workers=workers, coverage=False)
-    layouts = r.exports('SCN')
+    layouts = None
+    for name, init, d in (('VectorMC.cfg', 'InitReal', 2), ('VectorMC_cs.cfg', 'InitCS', 1 if quick else 2)):
+        cfg = ctx.write_cfg(name, head % (d, 'FALSE', init) + 'VIEW View\n' + laws)
+        r = ctx.tlc_check('mech/VectorMC', cfg, timeout=3000, workers=workers, coverage=False)
+        layouts = r.exports('SCN')
     if not layouts:
         raise MachineryError('no layout export')
     layouts = layouts[0]
     # 2. random histories with the exact observables
     depth = 5
-    ntraces = 160 if quick else 3000
+    fam = ((('Next', 'Init', 70), ('NextSolver', 'Init', 50), ('NextCS', 'InitCS', 80)) if quick else
+           (('Next', 'Init', 1200), ('NextSolver', 'Init', 800), ('NextCS', 'InitCS', 1000)))
     beh = []
-    for nxt, num in (('Next', ntraces // 2), ('NextSolver', ntraces // 2)):
-        cfg = ctx.write_cfg('VectorMC_sim_%s.cfg' % nxt, (head % (depth, 'TRUE')).replace('NEXT Next', 'NEXT ' + nxt) +
-                            'INVARIANT Export\nINVARIANT TypeOK\nINVARIANT ViewsTile\nINVARIANT ScaleRoundTrip\nINVARIANT DualPairing\nINVARIANT NormLaw\n')
+    for nxt, init, num in fam:
+        cfg = ctx.write_cfg('VectorMC_sim_%s.cfg' % nxt, (head % (depth, 'TRUE', init)).replace('NEXT Next', 'NEXT ' + nxt) +
+                            'INVARIANT Export\n' + laws)
         x = ctx.tlc_run('mech/VectorMC', cfg, simulate='num=%d' % num, depth=depth + 1, seed=ctx.seed + 1, workers=1,
                         timeout=900 if quick else 3000)
         if x.error or 'traces generated' not in x.out:
@@ -269,7 +370,8 @@ def run(ctx):
     # vacuity guard: every action of the specification occurs in the histories that are bound to the implementation
     SPEC_OF = {'set_val': 'SetValScalar', 'set_val_arr': 'SetValArr', 'set_val_idx': 'SetValIdx', 'set_vec': 'SetVec', 'iadd': 'IAdd',
                'isub': 'ISub', 'iadd_const': 'IAddConst', 'imul': 'IMul', 'op_idx': 'OpIdx', 'imul_vec': 'IMulVec', 'add_scal_vec': 'AddScalVec',
-               'set_name': 'SetName', 'set_var': 'SetVarIdx', 'scale_to_norm': 'ScaleToNorm', 'scale_to_phys': 'ScaleToPhys'}
+               'set_name': 'SetName', 'set_var': 'SetVarIdx', 'scale_to_norm': 'ScaleToNorm', 'scale_to_phys': 'ScaleToPhys',
+               'cs_mode': 'CsSwitch'}
     for b in beh:
         for e in b['h']:
             k = SPEC_OF[e['a']['n']]
@@ -282,7 +384,7 @@ def run(ctx):
             seen.add(k)
             uniq.append(b)
     beh = uniq
-    jobs = [(layouts[b['ly'] - 1], b, bool(j % 2)) for j, b in enumerate(beh)]
+    jobs = [(layouts[b['ly'] - 1], b, bool(b['alloc'])) for b in beh]
     nproc = min(workers, 16)
     chunks = [c for c in split(list(range(len(jobs))), nproc * 4) if c]
     res = pmap(_worker, [[jobs[j] for j in c] for c in chunks], nproc)
@@ -296,6 +398,15 @@ def run(ctx):
         names = [e['a']['n'] for e in b['h']]
         if any(n.startswith('scale_to') for n in names) and any(n in ('set_name', 'set_var', 'set_val_idx') for n in names):
             ctx.note_nontrivial(json.dumps(slim(b), sort_keys=True) + L['name'])
+        # complex step: a SET out of the mode on a storage whose imaginary plane is not zero, or complex arithmetic in the mode
+        prev_im, prev_cs = b['xi0'], bool(b['cs0'])
+        for e in b['h']:
+            nz = any(q[0] != 0 for q in prev_im)
+            if (nz and not prev_cs and e['a']['n'] in SETS) or (prev_cs and e['a']['n'] not in SETS + ('cs_mode',)):
+                ctx.note_nontrivial(json.dumps(slim(b), sort_keys=True) + L['name'])
+                kinds['cs:' + ('set out of the mode' if not prev_cs else 'arithmetic in the mode')] = \
+                    kinds.get('cs:' + ('set out of the mode' if not prev_cs else 'arithmetic in the mode'), 0) + 1
+            prev_im, prev_cs = e['datai'], bool(e['cs'])
         if f is not None:
             scn = dict(slim(b, f['step']), layout=L, alloc_complex=alloc, step=f['step'],
                        behaviour=dict(b, h=b['h'][:f['step'] + 1]))
@@ -308,15 +419,23 @@ def run(ctx):
     ctx.extra['behaviours_per_kind'] = kinds
     for b in beh[:2]:
         ctx.sample({'layout': layouts[b['ly'] - 1]['name'], 'kind': b['kind'],
-                    'history': [{'a': e['a'], 'data': [fr(q) for q in e['data']]} for e in b['h']]})
-    ctx.rule = ('TLC -simulate histories of depth %d over 14 vector actions (set_val scalar/array/indexed, set_vec, +=, -=, *=, '
-                'elementwise *=, += constant, add_scal_vec with the other vector or itself, named writes whole/indexed/flat and '
-                'through the returned view, scale_to_norm/scale_to_phys fwd and rev) on 2 layouts x 4 root vectors '
-                '(_outputs, _residuals, _doutputs, _dresiduals; every second Problem set up with force_alloc_complex); after '
-                'every action the flat data, all named views (values and shapes), the component-level vectors (windows on the same data), '
-                'dot(other), get_norm()**2 and dot(self) are '
-                'compared; non-trivial = histories with a scaling action and an indexed or named write' % depth)
-    ctx.assumptions = ['real arithmetic: the vectors are not switched to complex-step mode', 'DefaultVector, serial',
+                    'alloc_complex': bool(b['alloc']),
+                    'history': [{'a': e['a'], 'cs': e['cs'], 'storage': wplanes(e['data'], e['datai'])} for e in b['h']]})
+    ctx.rule = ('TLC -simulate histories of depth %d over 16 vector actions (set_val scalar/array/indexed, set_vec, +=, -=, *=, '
+                'elementwise *=, += constant, iadd/isub/imul with idxs, add_scal_vec with the other vector or itself, named writes '
+                'whole/indexed/flat and through the returned view, scale_to_norm/scale_to_phys fwd and rev, set_complex_step_mode) '
+                'in three families (all actions; the alphabet of a solver around a scaling; the alphabet of a complex step: mode on/off, '
+                'complex operands in the mode, real data set and combined out of it) on 2 layouts x 4 root vectors (_outputs, _residuals, '
+                '_doutputs, _dresiduals) x {real storage, complex storage out of the mode, complex storage in the mode}; complex storage '
+                'starts with a non-zero imaginary plane; after every action both planes of the storage, the dtype of asarray(), all named '
+                'views (values, shapes, dtype), the component-level vectors (windows on the same data), dot(other), get_norm()**2 and '
+                'dot(self) are compared; non-trivial = histories with a scaling action and an indexed or named write, or with a set '
+                'operation out of the mode over a non-zero imaginary plane, or with arithmetic in the mode' % depth)
+    ctx.assumptions = ['DefaultVector, serial',
+                       'complex operands are used in complex-step mode only; both root vectors and the component-level vectors are '
+                       'switched together (as System._set_complex_step_mode does)',
+                       'dot() in complex-step mode is specified as the code computes it (np.dot of the complex arrays, no '
+                       'conjugation); its docstring speaks of the real parts',
                        'reverse-mode scaling is specified for linear vectors only (OpenMDAO never scales a nonlinear vector in rev mode)',
                        'products are formed only from vectors with numerators <= 1000 and denominators <= 8 (TLC integers are 32 bit)',
                        'input vectors (unit conversion combined with scaling) are outside this check']
